@@ -383,7 +383,7 @@ pub fn alphabet(n: usize, p: &Params) -> Vec<Op> {
             ops.push(Op::GetMutR(*r, ((s + 1) % q) as u8));
         }
     }
-    let all_ends = [End::Drop, End::Count, End::Forget];
+    let all_ends = [End::Drop, End::Count, End::Last, End::Fold, End::RFold, End::Forget];
     for r in &ranges {
         match r.resolve(n) {
             None => ops.push(Op::Drain(*r, Script { walk: Walk::Front, k: 0, end: End::Drop })),
@@ -399,7 +399,7 @@ pub fn alphabet(n: usize, p: &Params) -> Vec<Op> {
         for (mode, b) in SOURCES {
             // mem::forget is only meaningful for Drain (it skips the Drop that repairs the
             // vector); forgetting a borrowing or owning iterator is a no-op or a plain leak
-            let ends: &[End] = &all_ends[..2];
+            let ends: &[End] = &all_ends[..5];
             let shifts = if writes(mode, b) { q } else { 1 };
             for sc in Script::all(n, ends) {
                 for s in 0..shifts {
